@@ -420,10 +420,11 @@ class C14(Prop):
             first_of_message = conn['since'] == b''
             conn['since'] += chunk
             many_ok = H.two_messages_possible(conn['since'])
-            badcl = H.bad_request_line(conn['since']) or H.bad_content_length(conn['since']) or H.bad_chunk_size(conn['since'])
+            badcl = (H.bad_request_line(conn['since']) or H.bad_header_line(conn['since']) or H.bad_content_length(conn['since'])
+                     or H.bad_chunk_size(conn['since']))
             if badcl and (resps or newreq):
                 # "4xx/5xx for malformed input": the first message of this stretch must be refused, never dispatched
-                classes.append('chunk-size-must-be-refused' if badcl.startswith('chunk') else 'content-length-must-be-refused' if badcl.startswith(('Content', 'conflicting')) else 'request-line-must-be-refused')
+                classes.append('chunk-size-must-be-refused' if badcl.startswith('chunk') else 'content-length-must-be-refused' if badcl.startswith(('Content', 'conflicting')) else 'header-line-must-be-refused' if badcl.startswith('header') else 'request-line-must-be-refused')
                 if newreq and (not resps or resps[0]['status'] < 400):
                     return bad('malformed-dispatched', 'request event dispatched for a message: %s: %r' % (badcl, conn['since'][:120]))
                 if resps and resps[0]['status'] < 400:
